@@ -91,7 +91,7 @@ def cases(draw, tier):
         nl = dict(nl, inputs=[r(x) for x in nl['inputs']], outputs=[r(x) for x in nl['outputs']],
                   gates=[[r(l), t, [r(o) for o in ops]] for l, t, ops in nl['gates']])
     return {'nl': nl, 'route': draw(gen.routes(nl)), 'spec': spec, 'reuse_instance': draw(st.booleans()),
-            'hand': draw(st.sampled_from(['list', 'tuple', 'iter']))}
+            'hand': draw(st.sampled_from(['list', 'tuple', 'iter'])), 'warm': draw(st.integers(0, 3)) == 0}
 
 
 def _mods():
@@ -160,6 +160,23 @@ def _declares_iterable(fn) -> bool:
         return any('Iterable' in str(p.annotation) for p in inspect.signature(fn).parameters.values())
     except (TypeError, ValueError):
         return False
+
+
+def build_for_pass(case):
+    """The circuit handed to the passes.  With `warm` the very same object has been through the passes before, while
+    it still had more outputs (every sink was one), and had its outputs narrowed to the final list afterwards."""
+    nl = case['nl']
+    if not case.get('warm'):
+        return build.build(nl, case['route'])
+    used = {o for g in nl['gates'] for o in g[2]}
+    wide = list(nl['outputs']) + [g[0] for g in nl['gates'] if g[0] not in used and g[0] not in nl['outputs']]
+    c = build.build(dict(nl, outputs=wide), case['route'])
+    try:
+        apply_spec(case['spec'], c, reuse=bool(case.get('reuse_instance')), hand=case.get('hand', 'list'))
+    except Exception:  # noqa  (what the first application does is not the subject here)
+        pass
+    c.set_outputs(list(nl['outputs']))
+    return c
 
 
 def apply_spec(spec, circuit, reuse=False, hand='list'):
